@@ -25,6 +25,9 @@ def oracle(ctx, tr):
                 ctx.fail("evaluated-after-connection-ended", case(),
                          "callbacks %r / %d messages after the transport became inactive" % (cbs, len(sent)))
             continue
+        if st.get("op") == "rekey":
+            nontrivial.add("rekey")
+            ctx.dist("rekey-before-auth" if not authed else "rekey-after-auth")
         if st["ptype"] == 50 and not authed:
             pa = L.parse_auth(st["payload"])
             if pa is not None:
@@ -114,16 +117,52 @@ def fixed_sessions(rng, tables):
                     return steps
 
                 makers.append((False, mk))
+
+    # the pin and the cap belong to the CONNECTION: a key re-exchange before authentication changes neither
+    def pw(gen, user, res):
+        return L.mk_step(gen, 50, S(user, b"ssh-connection", b"password", False, b"pw"), {"r_password": res})
+
+    for first in (2, 1, "probe", "query"):
+        def mk_pin(sid, first=first):
+            gen = L.Gen(rng, "c16", tables)
+            user = gen.user
+            steps = [L.mk_step(gen, 5, S(b"ssh-userauth"))]
+            if first == "probe":
+                steps.append(L.pk_step(gen, sid, user, L.client_keys()[0][0], "ssh-ed25519", False, 0))
+            elif first == "query":
+                steps.append(L.mk_step(gen, 50, S(user, b"ssh-connection", b"keyboard-interactive", b"", b""),
+                                       {"r_inter": ("query", "t", "i", [("Password: ", False)])}))
+            else:
+                steps.append(pw(gen, user, first))
+            steps.append(L.rekey_step(gen))
+            steps.append(pw(gen, user + b"2", 0))      # another username after the re-exchange: must be refused
+            steps.append(pw(gen, user, 0))
+            return steps
+
+        makers.append((False, mk_pin))
+    for before in (3, 9):
+        def mk_cap(sid, before=before):
+            gen = L.Gen(rng, "c16", tables)
+            user = gen.user
+            steps = [pw(gen, user, 2) for _ in range(before)]
+            steps.append(L.rekey_step(gen))
+            steps += [pw(gen, user, 2) for _ in range(10 - before)]   # the tenth failure over the whole connection
+            steps.append(L.rekey_step(gen))
+            steps += [pw(gen, user, 2), pw(gen, user, 0)]             # nothing is evaluated any more
+            return steps
+
+        makers.append((False, mk_cap))
     return makers
 
 
 def run(ctx):
     ctx.rule = ("scripted sessions of 1-15 messages from a raw client (USERAUTH_REQUESTs mixing 5 usernames, services, "
                 "7 methods incl. publickey with real signatures and stub-GSS methods; info responses; service requests; "
-                "connection-layer and unknown types; truncated/non-UTF-8 payloads) against a real server Transport "
+                "connection-layer and unknown types; client-initiated key re-exchanges; truncated/non-UTF-8 payloads) against a real server Transport "
                 "whose callbacks answer success/partial/failure/odd codes per step. distinct = distinct "
                 "(message, outcome) sequences; non-trivial = the session contains a wrong service, a username "
-                "change after pinning, a partial success or reaches the failure cap")
+                "change after pinning, a partial success, a key re-exchange, or reaches the failure cap; the pin and the cap are "
+                "tracked per connection, across re-exchanges")
     ctx.trust("the raw-client harness (pv/lib_authsrv.py): gate on the server's read_message, callback log",
               "key parsing by paramiko's key classes is an input of the model (result computed by the same classes)",
               "Python str equality on decoded text = byte equality on valid UTF-8 (model compares bytes)")
@@ -167,6 +206,8 @@ META = {
              "decoder) and checked by correspondence. Kex-layer message types (7, 20, 21) and connection-layer "
              "handling after authentication are delegated (assumed not to touch authentication state). The two "
              "byte-exact pinning/service theorems are stated for the normal handler; refusal_in_every_dispatch_state and "
-             "the history theorems hold from every state."),
+             "the history theorems hold from every state. The kex-layer handlers themselves are not modelled: that a key "
+             "re-exchange leaves pin and counter alone (rekey_keeps_pin_and_counter) is tied to transport.py by sessions "
+             "with client-initiated re-exchanges before authentication."),
     "technique": "Lean 4 proof (invariants by induction over message histories of a decide/perform state machine) + differential correspondence",
 }
